@@ -12,7 +12,8 @@ COVERAGE_RULE = ('one run = real Cluster with 1-2 Sessions over 2-3 fake nodes, 
                  '0-1 s, ConstantReconnectionPolicy(0.3-1.5 s, unlimited); up to 8 timed events: node crash (RST or black hole) / '
                  'restart, with or without gossip events; RST of pooled or control connections; STATUS_CHANGE UP/DOWN that are '
                  'timely, duplicated, stale (DOWN for a healthy node) or false (UP while still down); REMOVED_NODE / NEW_NODE; a '
-                 'pool creation that fails after a successful probe; background requests; then everything heals and a liveness '
+                 'pool creation that fails after a successful probe; a second session shut down by the application at any moment (also while '
+                 'on_up is opening its pool); background requests; then everything heals and a liveness '
                  'window follows; reconnection handlers are observed through wrappers of start/cancel/try_reconnect/'
                  'on_reconnection; distinct = event-log digest; non-trivial = at least one host went down')
 RULES = {
@@ -32,10 +33,11 @@ ASSUMPTIONS = ['heartbeats (interval 2 s, timeout 1 s) are on so that silently d
                'an already-scheduled run() of a cancelled handler is inert and is not an attempt (DESIGN 5.1 item 15)',
                'failure detection is lazy (DESIGN 5.1 item 3): no rule demands "down" at a particular instant']
 REQUIRED_PROBES = ['host_down', 'host_up_again', 'duplicate_up_event', 'stale_down_event', 'false_up_event', 'removed_node_event',
-                   'pool_creation_failed_after_probe', 'control_connection_moved', 'slow_probe_connects', 'cancelled_during_probe']
+                   'pool_creation_failed_after_probe', 'control_connection_moved', 'slow_probe_connects', 'cancelled_during_probe',
+                   'session_shut_down_mid_run']
 
 EVENT_KINDS = ['crash', 'crash', 'restart', 'rst_pool', 'rst_control', 'ev_up_dup', 'ev_down_stale', 'ev_up_false', 'ev_removed',
-               'refuse_pool_once']
+               'refuse_pool_once', 'crash', 'restart', 'rst_pool', 'ev_up_dup', 'close_session']
 
 
 def prepare():
@@ -105,7 +107,25 @@ def gen_plan(rng, tier):
             events.append({'at': round(T + rng.choice([0.8, 1.5]), 3), 'kind': rng.choice(['ev_removed', 'crash', 'rst_pool']), 'node': i, 'how': 'rst', 'announce': 0.01})
         slow = {'node': i, 'mult': rng.choice([30, 60])}
         fixed = {'window': 0, 'reconnect_delay': d}
-    plan_ = {'cluster': default_cluster_spec(n), 'version': 4, 'events': events, 'sessions': rng.choice([1, 1, 2]), 'slow_connect': slow,
+    nsessions = rng.choice([1, 1, 2])
+    if slow is None and not fixed and rng.random() < 0.15:
+        # a second session is shut down by the application while Cluster.on_up is opening pools for a node whose reconnection
+        # probe has just succeeded (connects are slow): that session reports "no pool", nothing signals a connection failure,
+        # and the host must still end up with a reconnector or be marked up
+        i = rng.randrange(1, n)
+        d = rng.choice([0.7, 1.5])
+        mult = rng.choice([30, 60, 100])
+        events = [{'at': 0.4, 'kind': 'crash', 'node': i, 'how': 'rst', 'announce': 0.01},
+                  {'at': 0.5, 'kind': 'restart', 'node': i, 'how': 'rst', 'announce': None}]
+        t = 0.4 + d
+        for _ in range(rng.choice([1, 2, 3])):
+            t += rng.choice([0.05, 0.1, 0.2, 0.3, 0.5])
+            events.append({'at': round(t, 3), 'kind': 'close_session', 'node': i, 'how': 'rst', 'announce': None})
+            break
+        slow = {'node': i, 'mult': mult}
+        fixed = {'window': 0, 'reconnect_delay': d}
+        nsessions = 2
+    plan_ = {'cluster': default_cluster_spec(n), 'version': 4, 'events': events, 'sessions': nsessions, 'slow_connect': slow,
             'executor_threads': rng.choice([1, 2, 4]), 'window': rng.choice([0, 0.2, 1.0]),
             'reconnect_delay': rng.choice([0.3, 0.7, 1.5]), 'traffic': rng.random() < 0.6,
             'strategy': gen_strategy(rng), 'time_jump_p': 0, 'line_p': rng.choice([0, 0, 0.005]), 'points': rng.choice([0, 2, 4]),
@@ -231,6 +251,12 @@ def run_plan(plan, seed, choices=None):
                 fc.remove_member(i, announce=0.0)
                 st.setdefault('removed', []).append((i, sim.vnow()))
                 sim.probe('removed_node_event')
+        elif k == 'close_session':
+            if len(st['sessions']) > 1 and not st['sessions'][-1].is_shutdown:
+                sess = st['sessions'][-1]
+                w.spawn(sess.shutdown, 'closer')
+                st['closed_at'] = sim.vnow()
+                sim.probe('session_shut_down_mid_run')
         elif k == 'refuse_pool_once':
             # the next connects to this node are refused for a short while (a probe may succeed just before)
             node.mode = 'refuse'
@@ -448,6 +474,8 @@ def run_plan(plan, seed, choices=None):
             if h.is_up:
                 sim.probe('host_up_again')
                 for si, s in enumerate(st['sessions']):
+                    if s.is_shutdown:
+                        continue
                     p = s._pools.get(h)
                     if p is None or p.is_shutdown:
                         # known way to get here: the pool shut itself down in return_connection() expecting the host to be marked down, but
